@@ -171,6 +171,25 @@ def shrink(case):
 
 # ---------------------------------------------------------------- real-code side
 
+class _ReProxy:
+    """Stands in for the `re` module inside nmtran_parser so that the record split the parser really performs is observed."""
+
+    def __init__(self, real):
+        self._real = real
+        self.calls = []
+
+    def split(self, pattern, string, *a, **kw):
+        out = self._real.split(pattern, string, *a, **kw)
+        self.calls.append((pattern, string, list(out)))
+        return out
+
+    def __getattr__(self, name):
+        return getattr(self._real, name)
+
+
+_RE_PROXY = None
+
+
 def worker_init():
     global NMTranParser, NMTranControlStream, factory, with_ignored_tokens, tokenize_ignored, Visitor, Transformer
     global parse_model, Assignment, Expr, RawRecord
@@ -184,6 +203,11 @@ def worker_init():
     from pharmpy.model.external.nonmem.nmtran_parser import NMTranControlStream, NMTranParser  # noqa
     from pharmpy.model.external.nonmem.records import factory  # noqa
     from pharmpy.model.external.nonmem.records.raw_record import RawRecord  # noqa
+    global _RE_PROXY
+    from pharmpy.model.external.nonmem import nmtran_parser as _np
+    if not isinstance(_np.re, _ReProxy):
+        _np.re = _ReProxy(_np.re)
+    _RE_PROXY = _np.re
 
 
 def _exc(e):
@@ -294,10 +318,23 @@ def run_text(case, drv):
     T = case["text"]
     k, mon = [], []
     tags = list(case.get("gen", []))
-    # ---- 1. record split (re.split) ---------------------------------------------------
-    pieces = re.split(r'^([ \t]*\$)', T, flags=re.MULTILINE)
+    # ---- 1. parse with the real parser, observing its own record split -------------------
+    _RE_PROXY.calls.clear()
+    try:
+        cs = NMTranParser().parse(T)
+        accepted = True
+    except Exception as e:
+        cs = None
+        accepted = False
+        tags.append("refused:" + _exc(e))
+    splits = [c for c in _RE_PROXY.calls if c[1] == T]
+    if len(splits) != 1:
+        k.append(f"record split of NMTranParser.parse not observed through re.split ({len(splits)} calls on the text)")
+        pieces = re.split(r'^([ \t]*\$)', T, flags=re.MULTILINE)
+    else:
+        pieces = splits[0][2]
     if "".join(pieces) != T:
-        mon.append({"cls": "split-join", "what": "re.split pieces do not concatenate to the text"})
+        mon.append({"cls": "split-join", "what": "the pieces of the record split do not concatenate to the text"})
     if drv is not None:
         m = [dec(x) for x in drv.ask(["split", enc(T)])]
         if m != pieces:
@@ -320,12 +357,6 @@ def run_text(case, drv):
         if m != front:
             k.append(f"front end (raw name, canonical name, content): model {str(m)[:300]} code {str(front)[:300]}")
     # ---- 3. the property: str(parse(T)) == T -------------------------------------------
-    try:
-        cs = NMTranParser().parse(T)
-        accepted = True
-    except Exception as e:
-        accepted = False
-        tags.append("refused:" + _exc(e))
     if accepted:
         tags.append("accepted")
         out = str(cs)
@@ -548,7 +579,11 @@ def run_model(case, drv):
         tags.append("model-refused:" + _exc(e))
         return {"k": k, "mon": mon, "tags": tags, "nontrivial": False}
     tags.append("model-read")
-    old_recs = _records(T)
+    try:
+        old_recs = _records(T)
+    except Exception as e:
+        tags.append("model-refused:" + _exc(e))
+        return {"k": k, "mon": mon, "tags": tags, "nontrivial": False}
     has_abbr = any(r.name == "ABBREVIATED" for r in old_recs)
     if has_abbr:
         tags.append("model-has-abbr")
@@ -561,8 +596,13 @@ def run_model(case, drv):
             code = model.update_source().code
             tags.append("noop-run")
             if code != T:
-                new_recs = _records(code)
-                for kd in sorted(changed_kinds(old_recs, new_recs)) or ["ORDER-OR-ADDED"]:
+                try:
+                    new_recs = _records(code)
+                except Exception as e:
+                    new_recs = None
+                    mon.append({"cls": "update-noop-unparseable", "what": f"the regenerated code of an unmodified model is not accepted by the "
+                                f"parser ({_exc(e)}): " + first_diff(T, code)})
+                for kd in [] if new_recs is None else sorted(changed_kinds(old_recs, new_recs)) or ["ORDER-OR-ADDED"]:
                     mon.append({"cls": "update-noop-" + change_class(kd, old_recs, new_recs),
                                 "what": f"code(update_source(read(T))) != T for an unmodified model (${kd} records differ): " + first_diff(T, code)})
             else:
@@ -586,7 +626,12 @@ def run_model(case, drv):
             tags.append(f"edit-{edit}-update-raises:" + _exc(e))
             continue
         tags.append(f"edit-{edit}")
-        new_recs = _records(code2)
+        try:
+            new_recs = _records(code2)
+        except Exception as e:
+            mon.append({"cls": f"frame-{edit}-unparseable", "what": f"after {what} the regenerated code is not accepted by the parser "
+                        f"({_exc(e)}): " + first_diff(T, code2)})
+            continue
         ch = changed_kinds(old_recs, new_recs) - allowed
         for kd in sorted(ch):
             mon.append({"cls": f"frame-{edit}-" + change_class(kd, old_recs, new_recs),
